@@ -520,7 +520,8 @@ sync_one_property = Contract(
         Clause("SOP-kwonly", "[a.arg for a in result.body[0].args.kwonlyargs] == ['k', 'x'] and [a.arg for a in result.body[0].args.args] == ['z', 'y'] "
                              "and result.body[0].args.kwonlyargs[0] is old_output_module.body[0].args.kwonlyargs[0]", when=["attr-to-kwonly"],
                note="C14: a keyword-only argument target: that argument - not the positional one at the same index - is replaced"),
-        Clause("SOP-addressed", "result.body[1].body[1] is input_module.body[0].body[1]", when=["attr-to-attr"], note="C14: the addressed output node is replaced by the addressed input node"),
+        Clause("SOP-addressed", "unchanged(result.body[1].body[1], input_module.body[0].body[1]) and (result.body[1].body[1] is input_module.body[0].body[1]) == False", when=["attr-to-attr"],
+               note="C14: the addressed output node is replaced by (a copy of) the addressed input node"),
         Clause("SOP-others", "result.body[0] is old_output_module.body[0] and result.body[1].body[0] is old_output_module.body[1].body[0] and result.body[2] is old_output_module.body[2] "
                              "and len(result.body) == 3 and len(result.body[1].body) == 2",
                when=["attr-to-attr"], note="C14: every other node of the output - the same-named attribute of the other class included - is the very same node, in place"),
